@@ -505,7 +505,7 @@ def check(ctx):
 
 
 def _match_semantics(ctx, psc: ClassInfo, match: FuncInfo) -> bool:
-    """PortsSemanticsCfg.match (and what it calls) interpreted (dznverif.scenario, E6) on every configuration over a universe
+    """PortsSemanticsCfg.match (and what it calls) interpreted (dznverif.scenario, E7) on every configuration over a universe
     of three port names - p and q that the component has, u that it has not - and the three wildcards:
       * sts / mts each one of the 7 non-empty name sets over {p, q, u} or ALL / REMAINING / NONE          (100 pairs)
       * for every pair that PortsSemanticsCfg accepts, match({p, q}, label) must
@@ -608,7 +608,7 @@ def _match_semantics(ctx, psc: ClassInfo, match: FuncInfo) -> bool:
 
 
 def _construction_semantics(ctx, psc: ClassInfo, adv: ClassInfo):
-    """PortsSemanticsCfg(sts, mts) interpreted (E6) for all 100 pairs of selections over three names: (number of scenarios,
+    """PortsSemanticsCfg(sts, mts) interpreted (E7) for all 100 pairs of selections over three names: (number of scenarios,
     {('wrong', label): [scenario ...]}) in the vocabulary of the C03.rejects report, None when not interpretable."""
     from ..scenario import Interp, Atom, EnumV, Raised, Undecided
     prog = ctx.prog
@@ -658,7 +658,7 @@ def _construction_semantics(ctx, psc: ClassInfo, adv: ClassInfo):
 
 
 def _mixed_provides_semantics(ctx, psc: ClassInfo, pc: ClassInfo, adv: ClassInfo):
-    """PortsCfg(provides, requires) interpreted (E6): a provides configuration in which both sts and mts select something
+    """PortsCfg(provides, requires) interpreted (E7): a provides configuration in which both sts and mts select something
     (neither is NONE) must be refused with AdvShellError, any other accepted one must be accepted.  List of disagreements,
     None when not interpretable."""
     from ..scenario import Interp, Atom, EnumV, Raised, Undecided
